@@ -149,10 +149,22 @@ def calls_of(beh, upto=None):
 
 
 # ---- verdicts ---------------------------------------------------------------------------------------------------
-def _where(detail):
+def _where(what, detail):
+    """structural place of a divergence: for a table, the field and the leaf that differ (indices dropped);
+    for a call, the outcomes / the result key"""
     import re
-    d = detail.split(':')[0]
-    return re.sub(r'\[[^\]]*\]', '[]', d)[:60]
+    if what == 'obs':
+        names = re.findall(r"\['([A-Za-z_]+)'\]", detail.split(': ')[0])
+        if not names:
+            return detail.split(':')[0][:40]
+        return names[0] if len(names) == 1 or names[0].startswith('iter') else '%s/%s' % (names[0], names[-1])
+    m = re.search(r'spec outcome (\S+), implementation (\w+)', detail)
+    if m:
+        return '%s->%s' % (m.group(1), m.group(2))
+    m = re.search(r'spec (\w+)=', detail)
+    if m:
+        return 'result:' + m.group(1)
+    return re.sub(r'[0-9]+', 'N', detail.split(':')[0])[:60]
 
 
 def verdicts(items, stats):
@@ -183,7 +195,7 @@ def verdicts(items, stats):
             model_out = dd.norm(beh[mm['step']]['state']['res']).get('out')
             sig = {'kind': 'conformance', 'action': mm['action'], 'what': mm['what'], 'out': model_out}
             if not (mm['action'] == 'Pack' and mm['what'] == 'obs'):
-                sig['where'] = _where(mm['detail'][0])
+                sig['where'] = _where(mm['what'], mm['detail'][0])
             add(sig, 'DemoStorage(base=%s, changes=%s) diverges from ZDemo at step %d %s%s [%s]: %s; calls: %s' % (
                 combo[0], combo[1], mm['step'], mm['action'], mm['args'], mm['what'], '; '.join(mm['detail']),
                 ' '.join(mm['prefix'][-14:])), dict(rep, calls=calls_of(beh, mm['step'])))
